@@ -3,7 +3,7 @@ use crate::engine::*;
 use crate::fixtures;
 use crate::props::c07::payload_message;
 use opcua::core::comms::chunker::Chunker;
-use opcua::core::comms::secure_channel::SecureChannel;
+use opcua::core::comms::secure_channel::{Role, SecureChannel};
 use opcua::core::supported_message::SupportedMessage;
 use opcua::crypto::SecurityPolicy;
 use opcua::types::*;
@@ -26,6 +26,9 @@ pub enum Tamper {
     /// secured on an earlier connection of the same channel object: the receiver had a token issued and renewed, was cleared
     /// (`clear_security_token`, what the client does when it reconnects) and got a new token with new nonces
     EarlierConnection,
+    /// the receiver is first given an unsecured OpenSecureChannel chunk naming policy None (anyone can make one), then a chunk
+    /// with one flipped bit
+    FlipAfterUnsecuredOpn(u16, u8),
     /// asymmetric only: signed by another private key / another sender certificate in the header / wrong receiver thumbprint
     OtherSigner,
     OtherSenderCert,
@@ -173,6 +176,23 @@ fn check(ctx: &Ctx, c: &Case) -> PResult {
             bad = b;
             name = "foreign-keys".into();
         }
+        Tamper::FlipAfterUnsecuredOpn(p, bit) => {
+            if c.asymmetric {
+                return Ok(());
+            }
+            let plain = fixtures::plain_channel(if client_sends { Role::Client } else { Role::Server });
+            let opn: SupportedMessage = if client_sends {
+                opn_request(SecurityPolicy::None, MessageSecurityMode::None)
+            } else {
+                OpenSecureChannelResponse { response_header: ResponseHeader::new_good(&RequestHeader::dummy()), server_protocol_version: 0, security_token: ChannelSecurityToken { channel_id: 7, token_id: 0, created_at: DateTime::now(), revised_lifetime: 60000 }, server_nonce: ByteString::null() }.into()
+            };
+            let Ok(chunks) = Chunker::encode(1, 1, 0, 0, &plain, &opn) else { return Ok(()) };
+            // whatever the receiver says to it, it must not stop verifying what follows
+            let _ = ctx.guard(|| to.verify_and_remove_security(&chunks[0].data))?;
+            let i = sec_hdr_end + ((*p as usize * (len - sec_hdr_end)) >> 16);
+            bad[i.min(len - 1)] ^= 1 << (bit % 8);
+            name = "flip-after-unsecured-opn".into();
+        }
         Tamper::EarlierConnection => {
             if c.asymmetric {
                 return Ok(());
@@ -283,6 +303,7 @@ fn tamper() -> impl Strategy<Value = Tamper> {
         1 => any::<u32>().prop_map(Tamper::TokenId),
         1 => Just(Tamper::ForeignKeys),
         1 => Just(Tamper::EarlierConnection),
+        1 => (any::<u16>(), any::<u8>()).prop_map(|(p, b)| Tamper::FlipAfterUnsecuredOpn(p, b)),
         1 => Just(Tamper::OtherSigner),
         1 => Just(Tamper::OtherSenderCert),
         1 => Just(Tamper::WrongThumbprint),
@@ -303,7 +324,7 @@ fn every_position(tier: Tier) -> Box<dyn Iterator<Item = Case>> {
 pub fn def() -> PropDef {
     PropDef {
         id: "C08",
-        rule: "a valid secured chunk (symmetric MSG in the 10 secure policy/mode pairs, asymmetric OPN per policy) plus one mutation: single bit flip (anywhere, and stratified over message header / security header / first block / last block / signature), truncation and extension with and without patching message_size, spliced tail of another valid chunk, other token id, keys from other nonces, a chunk of an earlier connection replayed to a cleared and re-issued receiver, other signer, other sender certificate, wrong receiver thumbprint; thorough walks every byte position; oracle: control chunk accepted, mutated chunk never passes verification; non-trivial = mutated bytes differ from the original; distinct = distinct case",
+        rule: "a valid secured chunk (symmetric MSG in the 10 secure policy/mode pairs, asymmetric OPN per policy) plus one mutation: single bit flip (anywhere, and stratified over message header / security header / first block / last block / signature), truncation and extension with and without patching message_size, spliced tail of another valid chunk, other token id, keys from other nonces, a chunk of an earlier connection replayed to a cleared and re-issued receiver, a bit flip after the receiver was given an unsecured OPN chunk naming policy None, other signer, other sender certificate, wrong receiver thumbprint; thorough walks every byte position; oracle: control chunk accepted, mutated chunk never passes verification; non-trivial = mutated bytes differ from the original; distinct = distinct case",
         assumptions: &["a panic on a mutated chunk is C09's subject and is counted here, not treated as an acceptance", "symmetric token ids are compared only through the signature (the header is inside the signed range)"],
         abort_possible: false,
         parts: |tier| {
